@@ -88,6 +88,11 @@ func c16Compile(text string, viaInclude string) (dumps []*corazawaf.VerifRuleDum
 			errText = err.Error()
 			return
 		}
+		// what NewWAF does after the last directive
+		if err := waf.Validate(); err != nil {
+			errText = err.Error()
+			return
+		}
 		rules := waf.Rules.GetRules()
 		for i := range rules {
 			dumps = append(dumps, rules[i].VerifDump())
@@ -571,6 +576,21 @@ func C16(run *vf.Run) {
 					}
 				}
 				if cut > 0 {
+					// a chain left open: the starter says "chain" and no link follows it - another directive stands in
+					// between, or the text ends. The reference reader has no reading for that (a starter without its
+					// links would run its disruptive action on the first condition alone): the parser must reject it.
+					for _, broken := range []struct{ kind, text string }{
+						{"marker-between-starter-and-link", strings.Join(c.Toks[:cut], "") + "\nSecMarker M\n" + strings.Join(c.Toks[cut:], "") + "\n"},
+						{"text-ends-after-starter", strings.TrimRight(strings.Join(c.Toks[:cut], ""), " \t\n\\") + "\n"},
+					} {
+						_, e3, p3 := c16Compile(broken.text, "")
+						run.Eval(broken.text)
+						if p3 != "" {
+							report("seclang:panic|chain-left-open+"+broken.kind, "the parser panicked: "+p3, c, broken.text)
+						} else if e3 == "" {
+							report("seclang:near-miss-accepted|chain-left-open+"+broken.kind, "a chain starter that is not followed by its link ("+broken.kind+") is compiled without an error: the starter's disruptive and flow actions now depend on its own condition alone", c, broken.text)
+						}
+					}
 					inc := filepath.Join(scratch, fmt.Sprintf("links%d.conf", i))
 					if os.WriteFile(inc, []byte(strings.Join(c.Toks[cut:], "")+"\n"), 0o644) == nil {
 						d2, e2, p2 := c16Compile(strings.Join(c.Toks[:cut], "")+"\nInclude "+inc+"\n", "")
